@@ -2,7 +2,7 @@
    oracles: convergence, ordering and completeness of the Lanczos iteration are not theorems (certificate-checked instead). *)
 From Coq Require Import List Arith Reals.
 From LaPyV Require Import Base.Scalar Base.Vec3 Base.ListAux Base.Sparse Model.TetMesh Model.TriaAdj Model.Fem
-  Proofs.SparseP Proofs.FemTriaP Proofs.PoissonP Proofs.EigsP.
+  Proofs.SparseP Proofs.FemTriaP Proofs.PoissonP Proofs.EigsP Proofs.KernelP.
 Import ListNotations.
 Open Scope R_scope.
 
@@ -44,3 +44,17 @@ Theorem C03_shift_invert_relation : forall n A B sigma nu (x : nat -> R), nu <> 
   eigpair n A B (sigma + 1 / nu) x.
 Proof. exact shift_invert_relation. Qed.
 Print Assumptions C03_shift_invert_relation.
+
+(* ---- one zero eigenvalue per connected component, with eigenvectors constant on components.  A vertex function that is constant
+   on every triangle (hence on every connected component) is annihilated by the stiffness matrix, row by row, whatever the geometry ... *)
+Theorem C03_functions_constant_on_components_are_in_the_kernel : forall v ts u i,
+  const_on_triangles ts u -> mulvec_at Rops (fem_tria_A Rops v ts) u i = 0.
+Proof. exact componentwise_constant_rows. Qed.
+Print Assumptions C03_functions_constant_on_components_are_in_the_kernel.
+
+(* ... and on non-degenerate meshes nothing else is: the kernel of A is exactly the set of functions constant on every triangle,
+   so the multiplicity of the eigenvalue 0 is the number of connected components *)
+Theorem C03_stiffness_kernel_is_exactly_the_componentwise_constants : forall v ts u, tria_nondeg v ts ->
+  ((forall f, bilin Rops f (fem_tria_A Rops v ts) u = 0) <-> const_on_triangles ts u).
+Proof. exact stiffness_kernel_characterised. Qed.
+Print Assumptions C03_stiffness_kernel_is_exactly_the_componentwise_constants.
